@@ -833,6 +833,8 @@ def handleLx (st : St) (args : List String) : St × String :=
       | some (_, g) =>
         let C : Lx.Cfg := { g := g, lexemes := lxs.toArray, skipId := skipId, initialSkip := ini = "1" }
         if !C.wf then (st, "bad-cert") else
+        -- premise `hskip` of c10_matched_slice_tokens_accepted: the skip lexeme carries the skip flag
+        if !(match skipId with | some k => (C.lx k).skip | none => true) then (st, "bad-skip") else
         ({ st with lxs := (id, C) :: st.lxs.filter (·.1 ≠ id) }, "ok")
       | none => (st, "no-such-grammar")
     | _, _, _, _ => (st, "bad-op")
@@ -863,7 +865,9 @@ def handleLx (st : St) (args : List String) : St × String :=
       match st.lxs.find? (·.1 = id) with
       | some (_, C) =>
         let ds := (C.lx sl).dfa
-        let rs := entries.filter (fun l => !(C.lx l).isLazy) |>.map (fun l =>
+        -- premise `NoLazy` of c10_matched_slice_tokens_accepted (`subsume_possible`)
+        if entries.any (fun l => (C.lx l).isLazy) then (st, "lazy-entry") else
+        let rs := entries.map (fun l =>
           let db := (C.lx l).dfa
           Dfa.decideContain ds db (Dfa.run db 0 u) 3000)
         if rs.contains (some true) then (st, "ok 1")
